@@ -732,6 +732,7 @@ MiniEngine hash_engine() {
     MiniEngine e;
     e.name = "hash";
     e.prop = "C05";
+    e.cpu_limit = 400; // hundreds of ids x thousands of attempts x twin
     e.gen = hash_gen;
     e.run = hash_run;
     e.shrinks = hash_shrinks;
